@@ -18,7 +18,7 @@ def rp(f, p):
 
 def ro(f, o):
     if o['k'] == 'const':
-        return 'const ' + (o.get('fn') or o.get('v', ''))[:80] + ('#p%d' % o['promoted'] if 'promoted' in o else '')
+        return 'const ' + (o.get('fn') or (('static ' + o['static']) if 'static' in o else o.get('v', '')))[:80] + ('#p%d' % o['promoted'] if 'promoted' in o else '')
     if o['k'] in ('copy', 'move'):
         return o['k'] + ' ' + rp(f, o['p'])
     return str(o)
